@@ -26,15 +26,19 @@ ASSUMPTIONS = ['the fake API server delivery instants are the instants the opera
                'daemon personas are finite (a daemon swallowing every cancellation forever blocks the exit by design)']
 SANITIZE_LOOP_ERRORS = True      # an exception inside an asyncio callback during the simulation is a violation here (runner.run_case_sanitized)
 GATES = {'instances': 800, 'stopped_by_mismatch': 30, 'stopped_by_deletion': 100, 'stopped_by_pause': 40, 'stopped_by_exit': 80, 'cancelled': 100, 'abandoned': 10,
-         'start_checks': 400, 'stop_checks': 800, 'self_exits': 40, 'respawns': 30, 'vanished_objects': 100, 'timer_instances': 200}
+         'start_checks': 400, 'stop_checks': 800, 'sync_instances_stopped': 20, 'self_exits': 40, 'respawns': 30, 'vanished_objects': 100, 'timer_instances': 200}
 
 BATCH = 0.0          # this kopf version has no batch window any more (the setting is deprecated): every event is processed
 W = BATCH + 0.03      # an event is processed within this (a few request latencies of 1 ms)
 W2 = 0.6              # slack of a staged step: re-check cycle = sleep + touch-patch + batch window + request latencies
 
 
+SYNC_SHARE = 0.2     # share of daemons/timers that are synchronous functions (threads)
+
+
 def rnd_desc(rng: random.Random, i: int) -> dict[str, Any]:
     handlers: list[dict[str, Any]] = []
+    rng_sync = random.Random(rng.random())       # its own stream of choices
     for k in range(rng.choice([1, 1, 2, 3])):
         flt = rng.choice([None, 'label', 'label', 'field'])
         opts: dict[str, Any] = {}
@@ -64,6 +68,13 @@ def rnd_desc(rng: random.Random, i: int) -> dict[str, Any]:
         else:
             topts = rng.choice([{'interval': 2.0}, {'interval': 2.0}, {'idle': 3.0}, {'interval': 2.0, 'idle': 3.0}, {}])
             handlers.append({'kind': 'timer', 'id': f's{k}', 'opts': {**opts, **topts}})
+        if SYNC_SHARE and rng_sync.random() < SYNC_SHARE:
+            # a synchronous function: kopf runs it in its thread pool and hands it the thread-side stop flag (kv.vthreads keeps the clock virtual).
+            # A thread cannot be cancelled: the flag-ignoring personas become "lingers on after the flag" (abandoned, never seen cancelled).
+            h = handlers[-1]
+            h['sync'] = True
+            if h['kind'] == 'daemon' and h['persona']['type'] in ('stubborn', 'swallow'):
+                h['persona'] = {'type': 'linger', 'linger': rng_sync.choice([4.0, 8.0])}
     if rng.random() < 0.3:
         handlers.append({'kind': 'delete', 'id': 'dl'})
     if rng.random() < 0.5:
@@ -331,7 +342,9 @@ def run_case(case: dict[str, Any]) -> dict[str, Any]:
         f_late = max([f] + restarts)
         if 'OPERATOR_PAUSING' in reasons:
             f_late = max(f_late, f + 1.0)     # a daemon spawned at the instant of pausing is met by the killer's next once-per-second sweep, which starts the stages anew
-        if timeout is not None and it['t1'] > f_late + (backoff or 0) + W2 and not it['cancels'] and it['t1'] < t_end - 1e-9:
+        if spec.get('sync'):
+            cov['sync_instances_stopped'] += 1
+        if timeout is not None and it['t1'] > f_late + (backoff or 0) + W2 and not it['cancels'] and it['t1'] < t_end - 1e-9 and not spec.get('sync'):
             viol.append({'mech': staged_mech(it, 'not-cancelled-after-backoff', f, it['t1']), 'msg': f"{it['h']} on {it['uid']}: stop flag at t={f}, backoff={backoff}, timeout={timeout}: still running at t={it['t1']} and never cancelled", 'witness': it})
         if it['cancels'] and timeout is not None and it['cancels'][0] > f_late + (backoff or 0) + W2 and 'OPERATOR_EXITING' not in reasons:
             viol.append({'mech': staged_mech(it, 'cancelled-too-late', f, it['cancels'][0]), 'msg': f"{it['h']} on {it['uid']}: stop flag at t={f}, backoff={backoff}: cancelled only at t={it['cancels'][0]}", 'witness': it})
